@@ -167,6 +167,36 @@ def rows(ctx, F):
         (ctx.ok if ok else ctx.bad)('C16.R1', 'AffFuncBase::remove_zero_columns', 'keeps a subsequence of the columns, bias untouched' if ok else 'remove_zero_columns changes the bias or does not re-stack columns', b.span)
 
 
+def shape_of(e):
+    """`shape(X)[i]` / `X.dim().i` / nrows / ncols / len_of(X, Axis(i)) / len(v) for X built by eye, zeros, ones, from_elem, from_diag -> that
+    dimension expression; anything else unchanged"""
+    e0 = e
+    e = s(e)
+    axis = None
+    X = None
+    if e[0] == 'index' and is_call(e[1], 'ArrayBase::shape') and e[2][0] == 'const':
+        X, axis = e[1][2][0], e[2][1]
+    elif e[0] == 'field' and is_call(e[1], 'ArrayBase::dim') and e[2].isdigit():
+        X, axis = e[1][2][0], int(e[2])
+    elif is_call(e, 'ArrayBase::nrows'):
+        X, axis = e[2][0], 0
+    elif is_call(e, 'ArrayBase::ncols'):
+        X, axis = e[2][0], 1
+    elif is_call(e, 'ArrayBase::len_of') and e[2][1][0] == 'agg' and e[2][1][2] and e[2][1][2][0][0] == 'const':
+        X, axis = e[2][0], e[2][1][2][0][1]
+    if X is None:
+        return e0
+    if is_call(X, 'ArrayBase::eye') and axis in (0, 1):
+        return X[2][0]
+    if is_call(X, 'ArrayBase::zeros', 'ArrayBase::ones', 'ArrayBase::from_elem') and X[2][0][0] == 'agg' and X[2][0][1] == 'tuple' and axis < len(X[2][0][2]):
+        return X[2][0][2][axis]
+    if is_call(X, 'ArrayBase::zeros', 'ArrayBase::ones', 'ArrayBase::from_elem') and axis == 0 and X[2][0][0] != 'agg':
+        return X[2][0]
+    if is_call(X, 'ArrayBase::from_diag') and axis in (0, 1):
+        return ('index', ('call', 'ArrayBase::shape', (X[2][0],)), ('const', 0))
+    return e0
+
+
 def constructors(ctx, F):
     """constructor forms: (base, point writes) for matrix and bias"""
     Z = lambda *a: ('zeros',)
@@ -265,6 +295,9 @@ def constructors(ctx, F):
             m, mwr, bi, bwr = f
             gm = base(m)
             gb = base(bi)
+            # the length of the bias read off the matrix it belongs to (`zeros(linear_part.shape()[0])` in a shared helper): the number of rows
+            # of a matrix built by a known constructor
+            gb = tuple(shape_of(x) if isinstance(x, tuple) else x for x in gb) if isinstance(gb, tuple) else gb
             # overwriting point writes are the documented sum of contributions only if no later plain write can hit an entry written before
             cfgb = b.cfg()
             plain = [(tuple(s(i) for i in idx), bb2, acc_kind(idx, v, m)) for idx, v, bb2 in mwr]
